@@ -178,7 +178,7 @@ uint32_t Wave_File::parse_chunk(const uint8_t *fdata)
 				if(!transpose)
 					transpose -= 60;
 			}
-			if(chunksize >= 0x2c && *(uint32_t*)(fdata+0x24))
+			if(chunksize >= 0x34 && *(uint32_t*)(fdata+0x24))
 			{
 				lstart = *(uint32_t*)(fdata+0x2c+8);
 				lend = *(uint32_t*)(fdata+0x2c+12) + 1;
